@@ -25,11 +25,12 @@ type Conn struct {
 }
 
 func newServer(s *Swarm, netConn net.Conn) (*Conn, error) {
-	var pubKey ssh.PublicKey
+	const pubKeyExt = "sshswarm-public-key"
 	config := &ssh.ServerConfig{
 		PublicKeyCallback: func(md ssh.ConnMetadata, pk ssh.PublicKey) (*ssh.Permissions, error) {
-			pubKey = pk
-			return &ssh.Permissions{}, nil
+			// The callback runs for every key the client merely offers, and its results are cached.
+			// The key which actually authenticated is the one whose Permissions end up on the connection.
+			return &ssh.Permissions{Extensions: map[string]string{pubKeyExt: string(pk.Marshal())}}, nil
 		},
 	}
 	config.AddHostKey(s.signer)
@@ -38,8 +39,14 @@ func newServer(s *Swarm, netConn net.Conn) (*Conn, error) {
 	if err != nil {
 		return nil, err
 	}
-	if pubKey == nil {
+	if sconn.Permissions == nil || sconn.Permissions.Extensions[pubKeyExt] == "" {
+		sconn.Close()
 		return nil, errors.New("pubkey not set after connection")
+	}
+	pubKey, err := ssh.ParsePublicKey([]byte(sconn.Permissions.Extensions[pubKeyExt]))
+	if err != nil {
+		sconn.Close()
+		return nil, err
 	}
 
 	raddr := sconn.RemoteAddr().(*net.TCPAddr)
